@@ -74,18 +74,20 @@ def lex(lang, text):
     """tokens: (kind, text, line) with kind in id | bid | str | raw | num | nl | p | eof.
     Comments and blanks vanish; an unterminated comment / string literal is rejected."""
     cfg = LEX[lang]
+    eol = "\n" if lang == "go" else "\n\r\u2028\u2029" if lang == "typescript" else "\n\r"
     toks = []
     i, n, line = 0, len(text), 1
     while i < n:
         c = text[i]
-        if c == "\n":
+        if c == "\n" or (c in eol and not (c == "\r" and text[i + 1:i + 2] == "\n")):
+            # a lone carriage return ends a line (and a line comment) in every one of these languages but Go
             toks.append(("nl", "\n", line))
             line += 1
             i += 1
         elif c in " \t\r":
             i += 1
         elif text.startswith("//", i):
-            while i < n and text[i] != "\n":
+            while i < n and text[i] not in eol:
                 i += 1
         elif text.startswith("/*", i):
             start = line
